@@ -101,6 +101,14 @@ func (m *incomingStreamsMap[T]) AcceptStream(ctx context.Context) (T, error) {
 		m.mutex.Lock()
 	}
 	m.nextStreamToAccept += 4
+	// The channel holds at most one wake-up: if the next stream has already been opened,
+	// pass the wake-up on to another AcceptStream call that might be waiting for it.
+	if _, ok := m.streams[m.nextStreamToAccept]; ok {
+		select {
+		case m.newStreamChan <- struct{}{}:
+		default:
+		}
+	}
 	// If this stream was completed before being accepted, we can delete it now.
 	if entry.shouldDelete {
 		if err := m.deleteStream(id); err != nil {
